@@ -23,6 +23,22 @@ type sgen struct {
 	sb    strings.Builder
 	label int
 	max   int // statement budget
+	ret   []string // the return statement of the enclosing functions (innermost last); empty: "return"
+}
+
+// retStmt: a return statement that type-checks in the innermost enclosing function.
+func (g *sgen) retStmt() string {
+	if len(g.ret) == 0 {
+		return "return"
+	}
+	return g.ret[len(g.ret)-1]
+}
+
+// inFunc generates body inside a function (literal) whose return statement is ret.
+func (g *sgen) inFunc(ret string, body func()) {
+	g.ret = append(g.ret, ret)
+	body()
+	g.ret = g.ret[:len(g.ret)-1]
 }
 
 var conds = []string{
@@ -86,17 +102,17 @@ func (g *sgen) ifChain(depth int) {
 func (g *sgen) stmt(depth int) {
 	g.max--
 	in := g.ind(depth)
-	k := g.rng.Intn(28)
+	k := g.rng.Intn(42)
 	if depth >= 8 {
 		k = 23
 	}
 	switch {
-	case k < 8:
+	case k < 8 || k >= 40:
 		g.sb.WriteString(in)
 		g.ifChain(depth)
 	case k == 8:
 		g.sb.WriteString(in + "func() {\n")
-		g.block(depth+1, 1+g.rng.Intn(3))
+		g.inFunc("return", func() { g.block(depth+1, 1+g.rng.Intn(3)) })
 		g.sb.WriteString(in + "}()\n")
 	case k == 9:
 		g.sb.WriteString(in + "for i := 0; i < " + g.probe() + "; i++ {\n")
@@ -114,11 +130,11 @@ func (g *sgen) stmt(depth int) {
 		g.sb.WriteString(in + "}\n")
 	case k == 12:
 		g.sb.WriteString(in + "defer func(v int) {\n")
-		g.block(depth+1, 1)
+		g.inFunc("return", func() { g.block(depth+1, 1) })
 		g.sb.WriteString(in + "}(" + g.probe() + ")\n")
 	case k == 13:
 		g.sb.WriteString(in + "_ = func(q int) int {\n")
-		g.block(depth+1, 1+g.rng.Intn(2))
+		g.inFunc("return q", func() { g.block(depth+1, 1+g.rng.Intn(2)) })
 		g.sb.WriteString(in + "\treturn " + g.probe() + "\n" + in + "}\n")
 	case k == 15:
 		g.sb.WriteString(in + fmt.Sprintf("_ = (x + %d) * (cn + x)\n", g.rng.Intn(9)))
@@ -138,12 +154,137 @@ func (g *sgen) stmt(depth int) {
 		g.sb.WriteString(in + "\tif " + g.cond() + " {\n" + in + "\t\tcontinue " + l + "\n" + in + "\t}\n" + in + "}\n")
 	case k == 26:
 		g.sb.WriteString(in + "go func() {\n")
-		g.block(depth+1, 1)
+		g.inFunc("return", func() { g.block(depth+1, 1) })
 		g.sb.WriteString(in + "}()\n")
 	case k == 14:
 		g.sb.WriteString(in + "for range s {\n")
 		g.block(depth+1, 1)
 		g.sb.WriteString(in + "}\n")
+	// ---- statements with a condition / a tag that are NOT ifs: what their condition is, constant or not, makes nothing dead
+	case k == 28:
+		// condition-only loops (constant-false, constant-true, non-constant conditions; no condition at all)
+		c := g.cond()
+		if g.rng.Intn(6) == 0 {
+			c = ""
+		} else {
+			c += " "
+		}
+		g.sb.WriteString(in + "for " + c + "{\n")
+		g.block(depth+1, 1+g.rng.Intn(2))
+		g.sb.WriteString(in + "}\n")
+	case k == 29:
+		// three-clause loops over the same conditions
+		hdr := []string{"i := 0; %s; i++", "; %s; ", "i := " + g.probe() + "; %s; i--", "; %s; x++"}[g.rng.Intn(4)]
+		g.sb.WriteString(in + "for " + fmt.Sprintf(hdr, g.cond()) + " {\n")
+		g.block(depth+1, 1+g.rng.Intn(2))
+		g.sb.WriteString(in + "}\n")
+	case k == 30:
+		// switches with a constant tag / constant case values
+		tmpl := [][]string{
+			{"switch cf {", "case true:", "case false:"},
+			{"switch ct {", "case cf:", "default:", "case !cf:"},
+			{"switch cn {", "case 4:", "case 5, 6:", "default:"},
+			{"switch name {", `case "abcd":`, `case "x", "y":`},
+			{"switch v := " + g.probe() + "; {", "case cf:", "case v > 0 && " + g.cond() + ":", "default:"},
+			{"switch {", "case false:", "case ct:", "case b:"},
+			{"switch tt {", "case tf:", "case tt:"},
+			{"switch x {", "case cn:", "case 1, 2:", "default:"},
+		}[g.rng.Intn(8)]
+		g.sb.WriteString(in + tmpl[0] + "\n")
+		for _, cs := range tmpl[1:] {
+			g.sb.WriteString(in + cs + "\n")
+			g.block(depth+1, 1+g.rng.Intn(2))
+		}
+		g.sb.WriteString(in + "}\n")
+	case k == 31:
+		g.sb.WriteString(in + "select {\n" + in + "case <-make(chan int):\n")
+		g.block(depth+1, 1+g.rng.Intn(2))
+		g.sb.WriteString(in + "case v := <-make(chan bool):\n" + in + "\t_ = v\n")
+		g.block(depth+1, 1)
+		if g.rng.Intn(2) == 0 {
+			g.sb.WriteString(in + "default:\n")
+			g.block(depth+1, 1)
+		}
+		g.sb.WriteString(in + "}\n")
+	case k == 32:
+		g.sb.WriteString(in + "switch any(x).(type) {\n" + in + "case int:\n")
+		g.block(depth+1, 1+g.rng.Intn(2))
+		g.sb.WriteString(in + "case string, bool:\n")
+		g.block(depth+1, 1)
+		g.sb.WriteString(in + "default:\n")
+		g.block(depth+1, 1)
+		g.sb.WriteString(in + "}\n")
+	// ---- statements behind a statement that leaves the list (return, panic, break, continue, goto) in the SAME list: no if
+	// branch, so as live / dead as the list itself
+	case k == 33:
+		// an early return / panic in the middle of a list (the rest of this list follows it)
+		leave := g.retStmt()
+		if g.rng.Intn(4) == 0 {
+			leave = "panic(name)"
+		}
+		if g.rng.Intn(2) == 0 {
+			g.sb.WriteString(in + "if " + g.cond() + " {\n")
+			g.block(depth+1, 1)
+			g.sb.WriteString(in + "\t" + leave + "\n" + in + "\t" + g.probe() + "\n")
+			g.block(depth+1, 1)
+			g.sb.WriteString(in + "}\n")
+		} else {
+			g.sb.WriteString(in + leave + "\n" + in + g.probe() + "\n")
+		}
+	case k == 34:
+		// break / continue in the middle of a loop body
+		g.sb.WriteString(in + []string{"for range s {", "for " + g.cond() + " {", "for i := 0; i < x; i++ {", "for {"}[g.rng.Intn(4)] + "\n")
+		g.block(depth+1, 1)
+		g.sb.WriteString(in + "\t" + []string{"break", "continue"}[g.rng.Intn(2)] + "\n" + in + "\t" + g.probe() + "\n")
+		g.block(depth+1, 1)
+		g.sb.WriteString(in + "}\n")
+	case k == 35:
+		// break / return in the middle of a case clause / a select clause
+		leave := []string{"break", g.retStmt()}[g.rng.Intn(2)]
+		if g.rng.Intn(3) == 0 {
+			g.sb.WriteString(in + "select {\n" + in + "case <-make(chan int):\n")
+		} else {
+			g.sb.WriteString(in + "switch {\n" + in + "case " + g.cond() + ":\n")
+		}
+		g.block(depth+1, 1)
+		g.sb.WriteString(in + "\t" + leave + "\n" + in + "\t" + g.probe() + "\n")
+		g.block(depth+1, 1)
+		g.sb.WriteString(in + "default:\n" + in + "\t" + g.probe() + "\n" + in + "}\n")
+	case k == 36:
+		// the `goto fail` idiom: the labelled tail follows a return in the same list
+		g.label++
+		l := fmt.Sprintf("fail%d", g.label)
+		g.sb.WriteString(in + "if " + g.cond() + " {\n" + in + "\tgoto " + l + "\n" + in + "}\n")
+		g.block(depth, 1+g.rng.Intn(2))
+		g.sb.WriteString(in + g.retStmt() + "\n" + in[:len(in)-1] + l + ":\n" + in + g.probe() + "\n")
+		g.block(depth, 1)
+	case k == 37:
+		// a forward goto over statements of the same list / a backward one
+		g.label++
+		l := fmt.Sprintf("G%d", g.label)
+		if g.rng.Intn(2) == 0 {
+			g.sb.WriteString(in + "goto " + l + "\n" + in + g.probe() + "\n")
+			g.block(depth, 1)
+			g.sb.WriteString(in[:len(in)-1] + l + ":\n" + in + g.probe() + "\n")
+		} else {
+			g.sb.WriteString(in[:len(in)-1] + l + ":\n" + in + g.probe() + "\n")
+			g.block(depth, 1)
+			g.sb.WriteString(in + "if " + g.cond() + " {\n" + in + "\tgoto " + l + "\n" + in + "\t" + g.probe() + "\n" + in + "}\n")
+		}
+	case k == 38:
+		// labelled break / continue out of nested loops, statements behind it
+		g.label++
+		l := fmt.Sprintf("B%d", g.label)
+		g.sb.WriteString(in[:len(in)-1] + l + ":\n" + in + "for range s {\n" + in + "\tfor " + g.cond() + " {\n")
+		g.block(depth+2, 1)
+		g.sb.WriteString(in + "\t\t" + []string{"break ", "continue "}[g.rng.Intn(2)] + l + "\n" + in + "\t\t" + g.probe() + "\n" + in + "\t}\n")
+		g.block(depth+1, 1)
+		g.sb.WriteString(in + "}\n")
+	case k == 39:
+		// a block that ends in a return inside a loop, statements behind the loop; a bare block with a return in the middle
+		g.sb.WriteString(in + "{\n" + in + "\t" + g.probe() + "\n" + in + "\t" + g.retStmt() + "\n")
+		g.block(depth+1, 1)
+		g.sb.WriteString(in + "}\n" + in + g.probe() + "\n")
 	default:
 		g.sb.WriteString(in + g.probe() + "\n")
 	}
@@ -167,7 +308,7 @@ func genFile(rng *rand.Rand, idx, size int) string {
 	g.sb.WriteString("\t},\n}\n\n")
 	g.max = size / 3
 	fmt.Fprintf(&g.sb, "var fs%d = []func(x int, b bool, s []int) int{func(x int, b bool, s []int) int {\n", idx)
-	g.block(0, 1+rng.Intn(3))
+	g.inFunc("return 0", func() { g.block(0, 1+rng.Intn(3)) })
 	g.sb.WriteString("\treturn " + g.probe() + "\n}}\n\n")
 	g.max = size / 2
 	fmt.Fprintf(&g.sb, "type GT%d[K comparable] struct{ k K }\n\nfunc gf%d[K comparable, V any](k K, v V, x int, b bool, s []int) {\n", idx, idx)
@@ -380,6 +521,7 @@ type deadConfig struct {
 	Files map[string]string
 	Order []string
 	Kinds map[string]int // disturber kinds of the history
+	Helpers []hkGroup    // the groups with local helper funcs of the history (helpers.go)
 }
 
 func deadConfigs(rng *rand.Rand, pool []disturber) []deadConfig {
@@ -407,6 +549,16 @@ func deadConfigs(rng *rand.Rand, pool []disturber) []deadConfig {
 		order = append(order, "disturb.go")
 		c.Order = append(order, c.Order[at:]...)
 		c.Name += fmt.Sprintf("; disturber rules (Do / Contains / custom filters) loaded as file #%d of %d", at+1, len(c.Order))
+		// ... and a file of groups that define equal-named local helper funcs with different bodies (helpers.go)
+		hsrc, hgroups := genHelperFile(rng, 6+rng.Intn(4), i)
+		c.Files["helpers.go"] = hsrc
+		c.Helpers = hgroups
+		at = rng.Intn(len(c.Order) + 1)
+		order = append([]string{}, c.Order[:at]...)
+		order = append(order, "helpers.go")
+		c.Order = append(order, c.Order[at:]...)
+		c.Kinds["helper-groups"] += len(hgroups)
+		c.Kinds["helper-name-clashes"] += hkStats(hgroups)
 	}
 	return base
 }
@@ -455,6 +607,7 @@ func runDeadcode(enc *json.Encoder, rng *rand.Rand, nfiles, size int, tmp string
 		e      *ruleguard.Engine
 		shared *ruleguard.RunnerState
 		pool   *statePool
+		helpers []hkGroup
 		prev   *hutil.Target // the file that ran on the shared state last
 		// ... and the judge of its reports: every report of a *dead / *live group against the flag of its node
 		prevJudge func(reps []hReport, how string) (probes map[int]string, mismatch []string, bad string)
@@ -474,7 +627,7 @@ func runDeadcode(enc *json.Encoder, rng *rand.Rand, nfiles, size int, tmp string
 		for k, v := range c.Kinds {
 			allKinds[k] += v
 		}
-		cfgs = append(cfgs, &engCfg{name: c.Name, files: c.Files, order: c.Order, e: e, shared: ruleguard.NewRunnerState(e), pool: &statePool{e: e}})
+		cfgs = append(cfgs, &engCfg{name: c.Name, files: c.Files, order: c.Order, e: e, shared: ruleguard.NewRunnerState(e), pool: &statePool{e: e}, helpers: c.Helpers})
 	}
 	enc.Encode(dcObs{K: "catalogue", Probes: len(dpool), Kinds: allKinds, Mismatch: dropped})
 	if len(cfgs) < 2 {
@@ -562,6 +715,12 @@ func runDeadcode(enc *json.Encoder, rng *rand.Rand, nfiles, size int, tmp string
 					return nil, nil, bad
 				}
 				obs.Mismatch = append(obs.Mismatch, mism...)
+				if pmsg == "" {
+					// a complete run: the groups with local helper funcs report exactly what their formulas say
+					hm, decided := judgeHelpers(cfg.helpers, reps, t, order, expDead, how)
+					obs.Mismatch = append(obs.Mismatch, hm...)
+					obs.Kinds["reports:helper-group-decisions"] += decided
+				}
 				return out, reps, pmsg
 			}
 			// the probes of this file by label: expected verdicts (for runs that deliver only some of the reports)
